@@ -739,8 +739,9 @@ Definition T_gene := 2.
      add_biopython_feature -> Feature.__init__ (negative start: ValueError -> SecmetInvalidInputError)
          -> add_feature / add_gene -> ensure_valid_locations([feature], record.is_circular(), n): only for a gene with a
          strand on a linear record whose exon order bridges: location_bridges_origin(location, allow_reversing=True)
-         (reverses in place when that helps, ValueError -> SecmetInvalidInputError when not). *)
-Definition read_feature_loc (n : Z) (circular : bool) (ty : Z) (l : loc) : res loc :=
+         (reverses in place when that helps, ValueError -> SecmetInvalidInputError when not).
+   This is the location the record holds once the feature is added. *)
+Definition read_feature_added (n : Z) (circular : bool) (ty : Z) (l : loc) : res loc :=
   if n <? lend l then Err E_SecmetInvalid else
   if overlapping_exons l then Err E_SecmetInvalid else
   if is_compound l && (lstart l =? 0) && (lend l =? n) && negb circular then Err E_SecmetInvalid else
@@ -750,6 +751,22 @@ Definition read_feature_loc (n : Z) (circular : bool) (ty : Z) (l : loc) : res l
     let '(still, l2) := bridges_origin true l1 in
     if still then Err E_SecmetInvalid else Ok l2
   else Ok l1.
+
+(* what Feature.__lt__ and CDSCollection.__lt__ need of a location: when location_bridges_origin answers True,
+   split_origin_bridging_location must accept the exon order (one run in strand order before the origin, one after it,
+   one strand); otherwise get_comparator raises ValueError inside sorted() / bisect *)
+Definition sortable (l : loc) : bool :=
+  if bridges l then match split_bridging l with Ok _ => true | Err _ => false end else true.
+
+(* Record.from_biopython, last step (repair of finding C10-F65 unsortable_exon_order_accepted):
+     for added in record.all_features:
+         if location_bridges_origin(added.location):
+             split_origin_bridging_location(added.location)      ValueError -> SecmetInvalidInputError
+   a location whose exon order is neither the strand's nor a split over the origin is refused on reading (it was
+   accepted, and the record could then never be written: Feature.__lt__ raised inside sorted(all_features)). *)
+Definition read_feature_loc (n : Z) (circular : bool) (ty : Z) (l : loc) : res loc :=
+  do l' <- read_feature_added n circular ty l;
+  if sortable l' then Ok l' else Err E_SecmetInvalid.
 
 (* the locations a record can hold and write: no exon inside another one (what the prefilter removes), and - for a gene
    on a linear record - exons in the order of the strand (what add_gene itself enforces) *)
@@ -767,9 +784,13 @@ Definition read_spec_ok (circular : bool) (ty : Z) (l : loc) (out : res loc) : b
   match out with Ok l' => loc_eqb l' l | Err _ => true end.
 
 (* ---------- CDS features: Record.add_cds_feature on reload ---------- *)
-(* bisect.bisect_left(self._cds_features, cds) with Feature.__lt__ (sort key (start, len(location)), the start of an
+(* bisect.bisect_right(self._cds_features, cds) with Feature.__lt__ (sort key (start, len(location)), the start of an
    origin-crossing location being lowest start - highest end of its pre-origin exons; C04.Model.cmp_key 1).  The
-   comparison raises ValueError when split_origin_bridging_location refuses the exon order. *)
+   comparison raises ValueError when split_origin_bridging_location refuses the exon order (no location read from a
+   file is of that kind any more: read_feature_loc / C10_read_is_sortable; add_cds_feature can still be handed one).
+   bisect_right (repair of finding C10-F47 equal_key_genes_order; it was bisect_left): `if x < a[mid]: hi = mid else:
+   lo = mid + 1`, i.e. the binary search of C05.Model.bisect_go with the test "not (new < stored)": a CDS goes AFTER
+   the stored ones with an equal key, so features with equal keys stay in arrival order = file order. *)
 Definition feature_key (l : loc) : res (Z * Z) := C04.Model.cmp_key 1 l.
 Definition insert_cds (acc : res (list loc)) (x : loc) : res (list loc) :=
   do l <- acc;
@@ -778,10 +799,17 @@ Definition insert_cds (acc : res (list loc)) (x : loc) : res (list loc) :=
   | _ =>
     do kx <- feature_key x;
     do ks <- mapM feature_key l;
-    Ok (C05.Model.insert_at (C05.Model.bisect_left (fun ke => C04.Model.pair_lt ke kx) ks) x l)
+    Ok (C05.Model.insert_at (C05.Model.bisect_left (fun ke => negb (C04.Model.pair_lt kx ke)) ks) x l)
   end.
 (* the CDS features of a file, re-added in file order *)
 Definition cds_reload (file : list loc) : res (list loc) := fold_left insert_cds file (Ok []).
+
+(* keys never decrease along the list (equal neighbours allowed) *)
+Fixpoint weakly_sorted (l : list (Z * Z)) : bool :=
+  match l with
+  | a :: (b :: _) as r => negb (C04.Model.pair_lt b a) && weakly_sorted r
+  | _ => true
+  end.
 
 (* the stored list is what re-adding it gives: the CDS part of the fixed point *)
 Definition cds_spec_ok (stored : list loc) : bool :=
